@@ -56,7 +56,7 @@ Proof. vm_compute. reflexivity. Qed.
    everything the tasks may do (wake tasks, send, receive): when Executor::run finds the pool idle and
    reads the message count, no task is left in the injector, in a local queue, in a fast slot or in a
    worker's hands, and no worker is running a task. *)
-Require Import NX.Model.Pool NX.gen.PoolProg NX.Proofs.PoolProofs NX.Proofs.PoolGen.
+Require Import NX.Model.Pool NX.gen.PoolProg NX.Proofs.PoolProofs NX.Proofs.PoolCons NX.Proofs.PoolGen.
 
 Theorem c04_pool_source_is_proved_program : barrier_gen = barrier_fixed.
 Proof. exact gen_barrier_is_proved. Qed.
@@ -76,6 +76,21 @@ Theorem c04_pool_run_returns_only_at_quiescence :
     pmain s = MRead -> Pool.quiescent s.
 Proof. intros n ls Hn s H. exact (proj2 (pool_gen_idle_read_exact n ls Hn H)). Qed.
 Print Assumptions c04_pool_run_returns_only_at_quiescence.
+
+(* every task spawned before the run or woken during it has been taken from a queue and run (each exactly
+   once: tasks are conserved by every step, for any barrier program) when Executor::run reads the idle pool *)
+Theorem c04_pool_every_task_was_run :
+  forall n ls, 1 <= n ->
+    let s := p_run barrier_gen (p_init n) ls in
+    pmain s = MRead -> pran s = psched s.
+Proof. exact pool_gen_all_tasks_run. Qed.
+Print Assumptions c04_pool_every_task_was_run.
+
+Theorem c04_pool_tasks_conserved :
+  forall B n ls, let s := p_run B (p_init n) ls in
+    psched s = pran s + pinj s + PoolCons.sumload (pws s).
+Proof. exact PoolCons.pool_run_cons. Qed.
+Print Assumptions c04_pool_tasks_conserved.
 
 (* during a run, an idle pool (no bit set in active_workers) means that nothing is left to do *)
 Theorem c04_pool_idle_means_quiescent :
